@@ -4,9 +4,14 @@ import (
 	"container/list"
 	"fmt"
 	"math/rand"
+	"time"
 
 	"github.com/vicanso/pike/cache"
+	"github.com/vicanso/pike/compress"
 	"github.com/vicanso/pike/config"
+	"github.com/vicanso/pike/location"
+	"github.com/vicanso/pike/server"
+	"github.com/vicanso/pike/upstream"
 	"verifh/hx"
 )
 
@@ -187,7 +192,7 @@ func c11One(r *hx.Run, rnd *rand.Rand, s int, pattern string) {
 }
 
 func c11(r *hx.Run) {
-	r.Rule = "every size S in the list x access pattern {uniform,zipf,scan,loop of S+1}, >=50*S dispatcher operations (get-or-create, 1/23 removals) over 4*S keys; resident count read under each shard lock after every op (S<=64) or every 64 ops; each eviction event checked against a replayed per-shard recency list. Non-trivial = at least one eviction happened; distinct = (size,pattern)."
+	r.Rule = "every size S in the list x access pattern {uniform,zipf,scan,loop of S+1}, >=50*S dispatcher operations (get-or-create, 1/23 removals) over 4*S keys; resident count read under each shard lock after every op (S<=64) or every 64 ops; each eviction event checked against a replayed per-shard recency list; caches configured twice with different sizes; a cache renamed away and configured again under its old name through reloads applied step by step with client requests between the cache step and the server step; Non-trivial = at least one eviction happened; distinct = (size,pattern)."
 	r.Assume = []string{"residents are counted through the tag-guarded VerifStats hook (lru.Cache.Len under the shard lock)", "dispatcher-level: exported NewDispatcher/GetHTTPCache/RemoveHTTPCache are what the cache middleware calls"}
 	rnd := rand.New(rand.NewSource(r.Seed))
 	sizes := c11Sizes(r)
@@ -201,7 +206,85 @@ func c11(r *hx.Run) {
 	}
 	r.Set("sizes", len(sizes))
 	c11Reload(r, rnd)
+	c11ReloadWindow(r, rnd)
 	c11EndToEnd(r, rnd)
+}
+
+// c11ReloadWindow: a reload applies its steps one after the other (compress, caches, upstreams, locations,
+// servers - main.update); client requests arrive between any two of them. Here a cache is renamed away
+// and later configured again under its old name with a smaller size, with requests sent inside every
+// reload between the cache step and the server step (the server still names the cache that has just been
+// removed). Whatever those requests are answered, the cache configured at the end holds no more than the
+// largest size ever configured for its name.
+func c11ReloadWindow(r *hx.Run, rnd *rand.Rand) {
+	port := hx.FreePorts(1)[0]
+	addr := srvAddr(port)
+	var origin string
+	mk := func(cacheName string, size int) *config.PikeConfig {
+		return &config.PikeConfig{
+			Caches:    []config.CacheConfig{{Name: cacheName, Size: size, HitForPass: "5m"}},
+			Upstreams: []config.UpstreamConfig{{Name: "u", Servers: []config.UpstreamServerConfig{{Addr: origin}}}},
+			Locations: []config.LocationConfig{{Name: "l", Upstream: "u"}},
+			Servers:   []config.ServerConfig{{Addr: addr, Locations: []string{"l"}, Cache: cacheName}},
+		}
+	}
+	for round, sizes := range [][2]int{{40, 20}, {9, 3}, {300, 64}} {
+		a, b := fmt.Sprintf("c11wa%d_%d", r.Seed, round), fmt.Sprintf("c11wb%d_%d", r.Seed, round)
+		w := newWorldCfg(r, 1, true, func(o []string) *config.PikeConfig { origin = o[0]; return mk(a, sizes[0]) })
+		w.Farm.SetScript(func(f *hx.Fetch) *hx.Reply {
+			return &hx.Reply{Status: 200, Header: [][2]string{{"Cache-Control", "max-age=3600"}, {"Content-Type", "text/plain"}}, Body: hx.IdentBody(f, 200, "text")}
+		})
+		n := 0
+		get := func() *hx.Result {
+			n++
+			return w.Cl.Do(hx.Req{Addr: addr, Host: "c11w.example", URI: fmt.Sprintf("/c11w/%d/%d", round, n), Timeout: 10 * time.Second})
+		}
+		// a reload with requests inside the window between the cache step and the server step
+		reload := func(cfg *config.PikeConfig) {
+			compress.Reset(cfg.Compresses)
+			cache.ResetDispatchers(cfg.Caches)
+			for i := 0; i < 5; i++ {
+				res := get()
+				r.Add("requests_inside_reload_window", 1)
+				r.Add(fmt.Sprintf("requests_inside_reload_window_status_%d", res.Status), 1)
+			}
+			upstream.Reset(cfg.Upstreams)
+			location.Reset(cfg.Locations)
+			server.Reset(cfg.Servers)
+			server.Start()
+			w.Cfg = cfg
+		}
+		for i := 0; i < 10; i++ {
+			get()
+		}
+		reload(mk(b, sizes[0])) // the cache is renamed: a is removed while the server still names it
+		for i := 0; i < 10; i++ {
+			get()
+		}
+		reload(mk(a, sizes[1])) // the old name again, smaller
+		bound := sizes[0]
+		max, ok := 0, true
+		for i := 0; i < 6*bound+200; i++ {
+			if res := get(); res.Err != nil || res.Status != 200 {
+				r.Violate("request_failed_after_reload", nil, fmt.Sprintf("status %d err %v", res.Status, res.Err), res.Brief(), map[string]interface{}{"sizes": sizes})
+				ok = false
+				break
+			}
+			if d := cache.GetDispatcher(a); d != nil {
+				if t := d.VerifStats().Total; t > max {
+					max = t
+				}
+			}
+		}
+		r.Eval(1)
+		r.Add("reload_window_rounds", 1)
+		if ok && max > bound {
+			r.Violate("resident_exceeds_size", map[string]string{"size_class": "after_reload_with_requests_in_the_window", "size": fmt.Sprint(sizes)}, fmt.Sprintf("cache configured with size %d, renamed away and configured again with size %d holds %d entries", sizes[0], sizes[1], max), nil, map[string]interface{}{"sizes": sizes})
+		} else if ok {
+			r.Distinct(fmt.Sprintf("reload window %v", sizes))
+		}
+		w.Farm.Close()
+	}
 }
 
 // c11EndToEnd: small caches behind a real server: a dropped key is fetched (or reloaded) again
